@@ -314,6 +314,8 @@ pub trait DynArena {
     unsafe fn s_shrink(&self, ptr: NonNull<u8>, old: Layout, new: Layout) -> Result<NonNull<[u8]>, AllocError>;
     /// # Safety: allocator contract
     unsafe fn s_deallocate(&self, ptr: NonNull<u8>, layout: Layout);
+    /// # Safety: the block was allocated with the layout of `[u64; len]` (elem8) or `[u8; len]`
+    unsafe fn s_dealloc_typed(&self, elem8: bool, ptr: NonNull<u8>, len: usize);
     fn s_prepare(&self, layout: Layout, rev: bool) -> Result<Range<NonNull<u8>>, AllocError>;
     /// # Safety: contract of `allocate_prepared(_rev)`
     unsafe fn s_commit(&self, layout: Layout, range: Range<NonNull<u8>>, rev: bool) -> NonNull<u8>;
@@ -651,6 +653,15 @@ impl<'r> Via<'r> {
             via_dyn!(self, |a| a.deallocate(ptr, layout), ())
         }
     }
+    /// # Safety: see `DynArena::s_dealloc_typed`
+    pub unsafe fn dealloc_typed(&mut self, elem8: bool, ptr: NonNull<u8>, len: usize) {
+        unsafe {
+            if self.h == Handle::Direct {
+                return self.sh().s_dealloc_typed(elem8, ptr, len);
+            }
+            via_dyn!(self, |a| dealloc_typed_on(a, elem8, ptr, len), ())
+        }
+    }
     pub fn prepare(&mut self, layout: Layout, rev: bool) -> Result<Range<NonNull<u8>>, AllocError> {
         if self.h == Handle::Direct {
             return self.sh().s_prepare(layout, rev);
@@ -769,6 +780,9 @@ macro_rules! impl_dyn_arena {
         }
         unsafe fn s_deallocate(&self, ptr: NonNull<u8>, layout: Layout) {
             unsafe { Allocator::deallocate(self, ptr, layout) }
+        }
+        unsafe fn s_dealloc_typed(&self, elem8: bool, ptr: NonNull<u8>, len: usize) {
+            unsafe { dealloc_typed_on(self, elem8, ptr, len) }
         }
         fn s_prepare(&self, layout: Layout, rev: bool) -> Result<Range<NonNull<u8>>, AllocError> {
             if rev { BumpAllocatorCore::prepare_allocation_rev(self, layout) } else { BumpAllocatorCore::prepare_allocation(self, layout) }
@@ -930,6 +944,19 @@ where
     }
     fn d_mut_coll(&mut self, spec: &crate::mutcoll::MutSpec, rep: &mut crate::mutcoll::MutReport) {
         <A::MutColl as crate::mutcoll::MutCollSwitch>::run(self, spec, rep)
+    }
+}
+
+/// `BumpAllocatorTyped::dealloc` with a `BumpBox<[u8]>` / `BumpBox<[u64]>` rebuilt from the raw block
+unsafe fn dealloc_typed_on<B: BumpAllocatorTyped + ?Sized>(a: &B, elem8: bool, ptr: NonNull<u8>, len: usize) {
+    unsafe {
+        if elem8 {
+            let b: bump_scope::BumpBox<'_, [u64]> = bump_scope::BumpBox::from_raw(NonNull::slice_from_raw_parts(ptr.cast::<u64>(), len));
+            a.dealloc(b);
+        } else {
+            let b: bump_scope::BumpBox<'_, [u8]> = bump_scope::BumpBox::from_raw(NonNull::slice_from_raw_parts(ptr, len));
+            a.dealloc(b);
+        }
     }
 }
 
